@@ -108,3 +108,50 @@ theorem resolveLoop_inv (h : Key → Nat → Nat) (old : List (Key × Nat)) :
       exact ⟨c', by rw [← hc', List.append_assoc]⟩
 
 end Vm.IndexMap
+
+namespace Vm.IndexMap
+
+/-- an entry whose position does not occur earlier in the list survives `dropDup` -/
+theorem mem_dropDup_of_fresh (a b : List (Key × Nat)) (e : Key × Nat) (h : e.2 ∉ valsOf a) :
+    e ∈ dropDup (a ++ e :: b) := by
+  induction a with
+  | nil => simp [dropDup]
+  | cons x xs ih =>
+    simp only [valsOf, List.map_cons, List.mem_cons, not_or] at h
+    simp only [List.cons_append, dropDup, List.mem_cons, List.mem_filter]
+    right
+    exact ⟨ih (by simpa [valsOf] using h.2), by simpa using h.1⟩
+
+/-- generalisation of `resolveLoop_inv`: whatever the loop starts from stays a prefix of the result -/
+theorem resolveLoop_prefix (h : Key → Nat → Nat) :
+    ∀ (fuel salt : Nat) (coll : List Key) (cur res : List (Key × Nat)),
+      (valsOf cur).Nodup → resolveLoop h fuel salt coll cur = some res → ∃ c, res = cur ++ c := by
+  intro fuel salt coll cur res hnd hres
+  exact (resolveLoop_inv h cur fuel salt coll cur res hnd ⟨[], by simp⟩ hres).2
+
+/-- C04 core: a new key whose first hash is free (not used by the old map, not shared with another key of the
+    batch) keeps exactly that position - whatever the simulant labels, the batch order and the other members. -/
+theorem noncolliding_keeps_hash (h : Key → Nat → Nat) (t : Nat) (old : List (Key × Nat))
+    (pre post : List Key) (k : Key) (fuel : Nat) (res : List (Key × Nat))
+    (hold : h k t ∉ valsOf old)
+    (hpre : ∀ k' ∈ pre, h k' t ≠ h k t)
+    (hres : resolveLoop h fuel 1
+              (diff (pre ++ k :: post) (keysOf (dropDup (old ++ (pre ++ k :: post).map (fun k => (k, h k t))))))
+              (dropDup (old ++ (pre ++ k :: post).map (fun k => (k, h k t)))) = some res) :
+    (k, h k t) ∈ res := by
+  have hmem : (k, h k t) ∈ dropDup (old ++ (pre ++ k :: post).map (fun k => (k, h k t))) := by
+    have : old ++ (pre ++ k :: post).map (fun k => (k, h k t)) =
+        (old ++ pre.map (fun k => (k, h k t))) ++ (k, h k t) :: post.map (fun k => (k, h k t)) := by
+      simp [List.map_append, List.append_assoc]
+    rw [this]
+    apply mem_dropDup_of_fresh
+    simp only [valsOf, List.map_append, List.map_map, List.mem_append, not_or]
+    refine ⟨by simpa [valsOf] using hold, ?_⟩
+    intro hc
+    simp only [List.mem_map, Function.comp] at hc
+    obtain ⟨k', hk', heq⟩ := hc
+    exact hpre k' hk' heq
+  obtain ⟨c, hc⟩ := resolveLoop_prefix h fuel 1 _ _ res (dropDup_nodup_vals _) hres
+  rw [hc]; exact List.mem_append_left _ hmem
+
+end Vm.IndexMap
